@@ -2170,6 +2170,7 @@ private:
         size16_t arg = uninitialized16;
 
         size8_t has_sr_conflict = 0;
+        size16_t sr_conflict_rule = uninitialized16;
     };
 
     using lr1_parse_table = parse_table_entry[state_count_cap][symbol_count];
@@ -2340,6 +2341,7 @@ private:
                         {
                             entry.kind = solve_conflict(info.rule_info_idx, info.t);
                             entry.has_sr_conflict = true;
+                            entry.sr_conflict_rule = info.rule_info_idx;
                         }
                     }
                     else
@@ -2358,6 +2360,7 @@ private:
                             const auto& sm = gi.right_sides[ri.r_idx][info.after];
                             entry.kind = solve_conflict(reduction_rule_idx, sm.idx);
                             entry.has_sr_conflict = true;
+                            entry.sr_conflict_rule = reduction_rule_idx;
                         }
                     }
                     else
@@ -2729,7 +2732,7 @@ private:
             else if (entry.kind == parse_table_entry_kind::reduce && entry.has_sr_conflict)
                 s << " S/R CONFLICT, prefer reduce(" << gi.rule_infos[entry.arg].r_idx << ") over shift\n";
             else if (is_shift(entry.kind) && entry.has_sr_conflict)
-                s << " S/R CONFLICT, prefer shift over reduce(" << gi.rule_infos[entry.arg].r_idx << ")\n";
+                s << " S/R CONFLICT, prefer shift over reduce(" << gi.rule_infos[entry.sr_conflict_rule].r_idx << ")\n";
             else if (is_shift(entry.kind))
                 s << " shift to " << entry.arg << "\n";
             else if (entry.kind == parse_table_entry_kind::reduce)
